@@ -36,7 +36,7 @@ import unittest
 
 from .recorders import next_seq
 
-BASE_KINDS = ("kbd", "exit", "kbdsub", "exitsub")
+BASE_KINDS = ("kbd", "exit", "kbdsub", "exitsub", "basedirect")
 FAILING = {"fail", "error", "failsub", "mismatch", "eqexc", "sameobj"} | set(BASE_KINDS)
 
 KIND_OUTCOME = {
@@ -44,7 +44,7 @@ KIND_OUTCOME = {
     "fail": "addFailure", "failsub": "addFailure", "mismatch": "addFailure",
     "error": "addError", "skip": "addSkip", "skipsub": "addSkip",
     "xfail": "addExpectedFailure", "uxs": "addUnexpectedSuccess",
-    "kbd": "addError", "exit": "addError", "kbdsub": "addError", "exitsub": "addError",
+    "kbd": "addError", "exit": "addError", "kbdsub": "addError", "exitsub": "addError", "basedirect": "addError",
 }
 REPORT_OUTCOME = {"skip": "addSkip", "failure": "addFailure", "error": "addError",
                   "xfail": "addExpectedFailure", "uxs": "addUnexpectedSuccess"}
@@ -57,6 +57,10 @@ class MyKbd(KeyboardInterrupt):
 
 class MyExit(SystemExit):
     pass
+
+
+class MyBaseDirect(BaseException):
+    """Derives from BaseException directly, like asyncio.CancelledError or GeneratorExit."""
 
 
 class MySkip(unittest.SkipTest):
@@ -87,6 +91,10 @@ class CustomC(Exception):
     pass
 
 
+class CustomBase(BaseException):
+    """Derives from BaseException directly (like asyncio.CancelledError); may get a user handler."""
+
+
 class CustomFalsy(Exception):
     """An exception object that happens to be falsy."""
 
@@ -104,7 +112,8 @@ class EqExc(Exception):
         return hash(self.args)
 
 
-CUSTOM = {"CustomA": CustomA, "CustomB": CustomB, "CustomC": CustomC, "CustomFalsy": CustomFalsy}
+CUSTOM = {"CustomA": CustomA, "CustomB": CustomB, "CustomC": CustomC, "CustomFalsy": CustomFalsy,
+          "CustomBase": CustomBase}
 
 
 class Scratch:
@@ -237,6 +246,8 @@ def _do_raise(env, case, action, constituent=False):
         raise note(KeyboardInterrupt(tok))
     if kind == "exit":
         raise note(SystemExit(tok))
+    if kind == "basedirect":
+        raise note(MyBaseDirect(tok))
     if kind == "kbdsub":
         raise note(MyKbd(tok))
     if kind == "exitsub":
@@ -458,7 +469,7 @@ def _insert_handler(env, case, exc_name, report, position):
           "uxs": TestCase._report_unexpected_success}[report]
 
     def handler(case_, result, err, fn=fn, exc_name=exc_name):
-        env.log("user_handler", exc_name, report)
+        env.log("user_handler", exc_name, report, (getattr(err, "args", None) or [None])[0])
         return fn(case_, result, err)
     pos = min(position, len(case.exception_handlers))
     case.exception_handlers.insert(pos, (CUSTOM[exc_name], handler))
